@@ -313,7 +313,13 @@ def load_known():
 class Check:
     """Accumulates what one run covered and decides."""
 
+    LEVELS = ("exploration", "fault_enumeration", "model_checking", "proof", "translation_validation", "other")
+
     def __init__(self, pid: str, tier: str, seed: int, level: str):
+        # the evidence schema only knows the plain level names; anything more specific goes into level_detail
+        self.level_detail = level
+        if level not in self.LEVELS:
+            level = next((l for l in self.LEVELS if level.startswith(l)), "other")
         self.pid, self.tier, self.seed, self.level = pid, tier, seed, level
         self.t0 = time.time()
         self.scratch = tempfile.mkdtemp(prefix=f"bardic_verif_{pid}_")
@@ -374,6 +380,7 @@ class Check:
         self.cov["checker_cmd"] = checker_cmd
         self.cov["trusted_base"] = trusted_base
         self.cov.update(self.notes)
+        self.cov["level_detail"] = self.level_detail
         for sig, what in self.known_hits:
             print(f"KNOWN-FINDING: property={self.pid} {what}")
         rc = 0
